@@ -150,9 +150,9 @@ def run_ctor1(block, ctx):
     ctx.sample({"x": block[0], "form": "ra"})
 
 
-DS = [0, 1, -1, 23, -23, 359, 360, 361, -743, 0.5, -0.5, 12.999999]
-MS = [0, 1, -1, 26, 59, 60, 61, -26, 59.999999, 0.5, 125]
-SS = [0, 0.0, 1, -1, 48.999, 59.9999999, 60, 61, -48.9, 3600, 1e-9]
+DS = [0, 1, -1, 23, -23, 359, 360, 361, -743, 0.5, -0.5, 12.999999, -359, 719, 359.99999999999994]
+MS = [0, 1, -1, 26, 59, 60, 61, -26, 59.999999, 0.5, 125, 59.99999999999999]
+SS = [0, 0.0, 1, -1, 48.999, 59.9999999, 60, 61, -48.9, 3600, 1e-9, 59.99999999999999, 59.999999999999]
 FORMS3 = ["args", "tuple", "list", "args4", "tuple4", "list4", "args2", "tuple2", "ra_args",
           "set_args"]
 
@@ -405,6 +405,12 @@ def check_event(a, ev):
         return [("exception", "%s raised %r" % (what or ev, ex), None)], None, None
     if bits(a._deg) != before or a._tol != before_tol:
         out.append(("mutation", "%s modified its receiver: %r -> %r" % (what, before[0], a._deg), None))
+        # the explorer owns this object (it is a state of the search): put it back, and do not let the
+        # result alias it
+        if res is a:
+            res = Angle(a)
+        a._deg = before[0]
+        a._tol = before_tol
     if not isinstance(res, Angle):
         out.append(("type", "%s returned %r, not an Angle" % (what, type(res).__name__), None))
         return out, None, None
@@ -479,7 +485,7 @@ def run_bfs(spec, ctx):
     ks = sorted(seen, key=lambda k: (seen[k][1], k))
     k = ks[-1]
     hist = []
-    while seen[k][2] is not None:
+    while seen[k][2] is not None and len(hist) <= depth:
         pk, ev = seen[k][2]
         hist.append(ev_json(ev))
         k = pk
